@@ -107,3 +107,9 @@ package actionlint
 //@   loop "range with":
 //@     body_stores [C03] ExecAction.Entrypoint iff input.id == "entrypoint"
 //@     body_stores [C03] ExecAction.Args iff input.id == "args"
+
+// the Runner being filled is one object for the whole section: a later key never replaces what an
+// earlier key stored
+//@ func (*parser).parseRunsOn
+//@   loop "range p.parseSectionMapping(\"runs-on\", n, false, true)":
+//@     stable [C03] r
